@@ -510,7 +510,6 @@ _benign_corpus()
 # The full self-test reports them as FALSE-ALARM; the thorough tier lists them as notes instead of failing, because
 # they say something about the checker's reach, not about the tree.  Anything not listed here must be silent.
 KNOWN_BRITTLE = {
-    ("ben-B12-4", "C03"): "decompress_literals: stream sizes read with u16::from_le_bytes([a, b]) — opaque to the linear bound engine, and the guard inventory compares the guard's bound as a normal-form tree",
 }
 
 # ---- C09: window counter accounting --------------------------------------------------------
